@@ -9,11 +9,14 @@ use crate::types::*;
 
 const NEW_NAMES: [&str; 4] = ["New", "My Sheet", "a&b", "TRUE"];
 const QUOTED: [&str; 4] = ["New", "'My Sheet'", "'a&b'", "TRUE"];
+/// a rename that changes only the case of the name
+const UPPER: [&str; 3] = ["SHEET1", "SHEET2", "SHEET3"];
 
 fn three_sheets() -> Option<Model<'static>> {
     let mut model = model_from_workbook(workbook_with_cells(vec![empty_sheet("Sheet1", 1), empty_sheet("Sheet2", 2), empty_sheet("Sheet3", 3)]));
     if model.set_user_input(0, 4, 2, "=Sheet2!A1+Sheet3!$B$2+Ghost!C3+D4+Ghost!A1:B2".to_string()).is_err() { return None; }
     if model.set_user_input(1, 2, 2, "=A1*Sheet1!B5".to_string()).is_err() { return None; }
+    if model.set_user_input(2, 7, 3, "=Sheet2!A1#".to_string()).is_err() { return None; }
     Some(model)
 }
 fn formula(m: &Model, sheet: u32, r: i32, c: i32) -> String { m.get_cell_formula(sheet, r, c).unwrap_or(None).unwrap_or_default() }
@@ -24,14 +27,16 @@ pub fn h_c17_rename_sheet() {
     let mut model = match entered { Some(m) => m, None => return };
     let which = any_u32();
     assume(which < 3);
-    let n = any_usize_to(NEW_NAMES.len() - 1);
-    if model.rename_sheet_by_index(which, NEW_NAMES[n]).is_ok() {
-        let n0 = if which == 0 { QUOTED[n] } else { "Sheet1" };
-        let n1 = if which == 1 { QUOTED[n] } else { "Sheet2" };
-        let n2 = if which == 2 { QUOTED[n] } else { "Sheet3" };
+    let n = any_usize_to(NEW_NAMES.len());
+    let (new_name, shown) = if n < NEW_NAMES.len() { (NEW_NAMES[n], QUOTED[n]) } else { (UPPER[which as usize], UPPER[which as usize]) };
+    if model.rename_sheet_by_index(which, new_name).is_ok() {
+        let n0 = if which == 0 { shown } else { "Sheet1" };
+        let n1 = if which == 1 { shown } else { "Sheet2" };
+        let n2 = if which == 2 { shown } else { "Sheet3" };
         let want1 = format!("={}!A1+{}!$B$2+Ghost!C3+D4+Ghost!A1:B2", n1, n2);
         let want2 = format!("=A1*{}!B5", n0);
         check("C17.rename.references_show_new_name_others_unchanged", (formula(&model, 0, 4, 2) == want1) & (formula(&model, 1, 2, 2) == want2));
+        check("C17.rename.spill_reference_shows_new_name", formula(&model, 2, 7, 3) == format!("={}!A1#", n1));
     }
     reach("C17.rename");
 }
